@@ -21,7 +21,6 @@ import (
 	"sort"
 	"strings"
 	"testing"
-	"time"
 
 	"github.com/pilosa/pilosa"
 	"github.com/pilosa/pilosa/boltdb"
@@ -639,24 +638,6 @@ func TestVerif_C08(t *testing.T) {
 	c := vx.NewCheck("C08", "model_checking",
 		"one evaluation = one history (operations through the real API on a fresh data directory of a real Server) with clean restarts at the chosen points; states = restart points at which the full observation battery was compared before/after; transitions = operations applied; distinct = distinct (configuration, history, restart placement)")
 	cfgs := c08Configs(c.Thorough())
-	if os.Getenv("C08_TIMING") != "" {
-		t0 := time.Now()
-		in := c08New(cfgs[0])
-		t1 := time.Now()
-		in.do("w1")
-		t2 := time.Now()
-		b := in.battery()
-		for k := 0; k < 20; k++ {
-			in.battery()
-		}
-		t3 := time.Now()
-		in.close()
-		t4 := time.Now()
-		in.open()
-		t5 := time.Now()
-		in.destroy()
-		fmt.Println("INFO new", t1.Sub(t0), "op", t2.Sub(t1), "battery", t3.Sub(t2), len(b), "close", t4.Sub(t3), "open", t5.Sub(t4), "destroy", time.Since(t5))
-	}
 	coreLen, otherLen := c.Pick(2, 3), c.Pick(1, 2)
 	c.Bound("configurations", len(cfgs))
 	c.Bound("history_length", fmt.Sprintf("all histories of 1..%d operations (core configurations) / 1..%d (other configurations) over %v (after create index + create field), restart after the last operation and, separately, after every operation", coreLen, otherLen, c08Ops))
